@@ -308,6 +308,63 @@ def check_split(case):
     return dict(nt=T % h != 0, cls=[case["method"], "target-off-grid" if T % h else "target-on-grid"], ratio=worst)
 
 
+# ---------------------------------------------------------------- re-configured propagator object
+
+
+@st.composite
+def reconf_case(draw):
+    c = draw(base_case(["euler", "rk4", "rkf54", "dopri54"], hmin=10, even=True))
+    c["back"] = False
+    c["N"] = draw(st.integers(9, 60))
+    c["changes"] = draw(st.lists(st.sampled_from(["halve-step", "double-step", "method", "tol", "same"]), min_size=1, max_size=3))
+    c["method2"] = draw(st.sampled_from(["euler", "rk4", "rkf54", "dopri54"]))
+    c["off_us"] = draw(st.sampled_from([0, 0, draw(go.uniform_int(1, 10**6 * 5))]))
+    return c
+
+
+def check_reconf(case):
+    """One orbit + one propagator object used, re-configured through its public attributes (as the
+    repository's own tests do with `.method`), used again: every result must be the one a fresh,
+    identically configured propagator gives (the state returned for a date does not depend on how the
+    request history went)."""
+    from beyond.env.solarsystem import get_body
+    from beyond.orbits import Orbit
+    from beyond.propagators.keplernum import KeplerNum
+
+    orb, cart, mu = build(case)
+    prop = orb.propagator
+    h, method, tol = case["h"], case["method"], 1e-3
+    T_us = case["N"] * case["h"] * 10**6 + case["off_us"]
+    date = mkdate(T_us)
+    worst = 0.0
+    n, wp = rates(case["el"], mu)
+    a = case["el"]["a"]
+    first = pos(orb.propagate(date))
+    for ch in ["same"] + case["changes"]:
+        if ch == "halve-step":
+            h = max(1, h // 2)
+        elif ch == "double-step":
+            h = min(240, h * 2)
+        elif ch == "method":
+            method = case["method2"]
+        elif ch == "tol":
+            tol = 1e-5 if tol == 1e-3 else 1e-3
+        prop.step = timedelta(seconds=h)
+        prop.method = method
+        prop.tol = tol
+        got = pos(orb.propagate(date))
+        fresh = Orbit(cart, mkdate(0), "cartesian", "EME2000",
+                      KeplerNum(timedelta(seconds=h), get_body("Earth"), method=method, tol=tol))
+        ref = pos(fresh.propagate(date))
+        d = float(np.linalg.norm(got[:3] - ref[:3]))
+        allowed = 2.5 * a * (wp * h) ** 8 + 0.05
+        worst = max(worst, d / allowed)
+        if d > allowed:
+            raise Violation("reconfigured-propagator", f"propagator re-configured to ({method}, h={h}s, tol={tol}) after earlier use gives a state "
+                                                       f"{d:.4g} m away from a fresh propagator with the same configuration (allowed {allowed:.3g} m)")
+    return dict(nt=True, cls=[case["method"]] + ["chg:" + c for c in case["changes"]], ratio=worst)
+
+
 FACETS = [
     Facet("order", lambda s, t: order_case(), check_order, setup=setup, shrink_quick=False,
           rule="both errors above 1e-5 m so the ratio is tested", quick=(8, 40), thorough=(16, 600)),
@@ -316,6 +373,9 @@ FACETS = [
     Facet("short", lambda s, t: short_case(), check_short, setup=setup,
           rule="target not the epoch itself; within 8 integration steps on either side",
           quick=(8, 150), thorough=(16, 2000)),
+    Facet("reconfigure", lambda s, t: reconf_case(), check_reconf, setup=setup,
+          rule="every case: the same orbit + propagator object used before and after its public configuration is changed",
+          quick=(6, 60), thorough=(16, 600)),
     Facet("invariants", lambda s, t: inv_case(), check_invariants, setup=setup, shrink_quick=False,
           rule="every case", quick=(8, 25), thorough=(16, 300)),
     Facet("split", lambda s, t: split_case(), check_split, setup=setup, shrink_quick=False,
